@@ -93,12 +93,13 @@ class TableOracle:
         # status query == table
         if action[0] in ('deliver', 'tick'):
             ep = pair.A
+            # the table as of the query (the same loop iteration runs the timers after answering it)
+            want = [(x.my_spi.hex(), x.peer_spi.hex(), bool(x.is_initiator), x.state.name, len(x.child_sas))
+                    for x in ep.controller.ike_sas]
             st = ep.status()
             if not st:
                 self.fail(pair, 'status:no-reply', 'control socket query got no reply')
                 return
-            want = [(x.my_spi.hex(), x.peer_spi.hex(), bool(x.is_initiator), x.state.name, len(x.child_sas))
-                    for x in ep.controller.ike_sas]
             got = [(e['my_spi'], e['peer_spi'], e['is_initiator'], e['state'], len(e['child_sas'])) for e in st[0]]
             if want != got:
                 self.fail(pair, 'status:differs-from-table', f'status {got} table {want}')
